@@ -8,10 +8,10 @@ TIMEOUT = {"quick": 900, "thorough": 3600}
 MIN_EVALUATIONS = {"quick": 8000, "thorough": 8000}  # fewer oracle evaluations than this means the workload collapsed: inconclusive
 RULE = ("call histories over {open, close, read, write, big fragmented read, generic_message connected / UCMM / Unconnected Send / connected with unconnected_send=True, list identity, "
         "get_plc_name, with-block without exception / left through a foreign exception / left through the library's own CommError raised by user code} for CIPDriver, LogixDriver (small project, init_tags on/off) and SLCDriver: every history "
-        "of length <= 2 (quick) / <= 3 (thorough) plus seeded random histories up to length 6 (8) x target policies {large Forward Open accepted, "
+        "of length <= 2 (quick) / <= 3 (thorough), the everyday session open / one operation / close for every Logix operation, plus seeded random histories up to length 6 (8) x target policies {large Forward Open accepted, "
         "large refused, all Forward Opens refused, session refused, service error on every k-th request, undecodable ListIdentity reply (header-only error / zero items / truncated item)}; each (history, policy) is first "
-        "run fault-free to count its I/O operations N, then re-run with one transport fault at operation k (every k in thorough, a spread "
-        "sample in quick) x {send raises, recv raises (reply lost), recv returns EOF, peer vanishes}; after each history faults stop, the driver "
+        "run fault-free to count its I/O operations N, then re-run with one transport fault at operation k (every k in thorough; in quick a spread "
+        "sample plus the first and the last socket operation of every operation of the history) x {send raises, recv raises (reply lost), recv returns EOF, peer vanishes}; after each history faults stop, the driver "
         "is closed, re-opened, used and closed again. Monitors: target-side lifecycle monitor (session before data, Forward Open before connected "
         "data, extended-first/standard-500 order), client-side exception types, step budget, driver.connected and target session/connection "
         "tables after every close; an open() of a Logix driver during which the fault fired and which still reports success holds the controller's whole tag list. distinct = (driver, history, policy, fault kind, fault position) executed")
@@ -44,6 +44,12 @@ def plan(ctx, rng):
     for h in lifecycle.histories(lifecycle.LOGIX_OPS, 2):
         if len(h) == 1 or rng.random() < (0.4 if quick else 1.0):
             items.append(("micro", h, rng.choice(["large-ok", "large-refused"]), rng.random() < 0.7))
+    # the everyday session - open, one operation, close - for every Logix operation, in every run (not left to the random histories):
+    # together with the per-operation fault positions below, a failure inside the middle operation is always among the cases
+    for kind in ("logix", "micro"):
+        for mid in ("read", "write", "read_big", "gm_conn", "plc_name", "with_ok"):
+            for pol in ("large-ok", "large-refused"):
+                items.append((kind, ("open", mid, "close"), pol, True))
     try:
         from vlib import refslc  # noqa
         for h in lifecycle.histories(lifecycle.SLC_OPS, 2):
@@ -93,12 +99,21 @@ def run(ctx):
                 ks = list(range(1, n_ops + 1))
             else:
                 ks = sorted({1, 2, 3, n_ops, n_ops - 1, max(1, n_ops // 2)} | {rng.randint(1, n_ops) for _ in range(6)})
+                # ... and inside EVERY operation of the history: its first and its last socket operation (a fault that hits the read of
+                # [open, read, close] must not depend on where the random positions fall)
+                bounds_ = [0] + list(getattr(base, "op_bounds", []))
+                for lo_, hi_ in zip(bounds_, bounds_[1:]):
+                    if hi_ > lo_:
+                        ks += [lo_ + 1, hi_]
+                ks = sorted(set(ks))
             ks = [k for k in ks if 1 <= k <= n_ops]
+            must_ = set(ks) if n_ops > 20 and len(hist) <= 3 else set()
         else:
+            must_ = set()
             ks = list(range(1, n_ops + 1)) if n_ops <= 60 else sorted({1, 2, 3, n_ops - 1, n_ops} | {rng.randint(1, n_ops) for _ in range(40)})
         for k in ks:
             for fk in lifecycle.FAULT_KINDS:
-                if quick and kind != "cip" and rng.random() < 0.5:
+                if quick and kind != "cip" and rng.random() < 0.5 and not (k in must_ and fk in ("send-raise", "recv-raise")):
                     continue
                 try:
                     r = lifecycle.Run(rng, kind, hist, pol, (k, fk), init_tags=init_tags).execute()
